@@ -16,6 +16,24 @@ type customErr struct{ s string }
 
 func (c *customErr) Error() string { return c.s }
 
+// nil values of slice- and map-kind error types are nil for Wrap/WrapTyped/Append too
+type sliceErr []string
+
+func (e sliceErr) Error() string { return strings.Join(e, ";") }
+
+type mapErr map[string]int
+
+func (e mapErr) Error() string { return fmt.Sprint(len(e)) }
+
+// outerErr is a plain (non-*Error) error that wraps another error
+type outerErr struct {
+	msg   string
+	inner error
+}
+
+func (o *outerErr) Error() string { return o.msg }
+func (o *outerErr) Unwrap() error { return o.inner }
+
 func gen(r *hx.Rand, n int) []string {
 	var out []string
 	for c := 0; c < n; c++ {
@@ -26,7 +44,18 @@ func gen(r *hx.Rand, n int) []string {
 		var size []int  // upper estimate of each value's chain length, to keep self-appends from growing exponentially
 		var okArg []int // values usable as list arguments: a nil pointer of a foreign error type is a "non-nil error" for Go and is left out
 		for k := 0; k < nops; k++ {
-			if nv < 2 || r.Chance(1, 2) {
+			if nv >= 1 && r.Chance(1, 12) {
+				msg++
+				t := r.Intn(nv) // the wrapped error is a real one (New or plain): a typed-nil inner would make errors.Is itself panic
+				for k2 := 0; k2 < nv && !(strings.HasPrefix(ops[t], "new") || strings.HasPrefix(ops[t], "plain")); k2++ {
+					t = (t + 1) % nv
+				}
+				if strings.HasPrefix(ops[t], "new") || strings.HasPrefix(ops[t], "plain") {
+					ops = append(ops, fmt.Sprintf("outer %d %d", msg, t))
+				} else {
+					ops = append(ops, fmt.Sprintf("plain %d", msg))
+				}
+			} else if nv < 2 || r.Chance(1, 2) {
 				switch r.Intn(9) {
 				case 0, 1, 2:
 					msg++
@@ -39,12 +68,24 @@ func gen(r *hx.Rand, n int) []string {
 				case 6:
 					ops = append(ops, "tnil")
 				case 7:
-					ops = append(ops, "tnilc")
+					ops = append(ops, []string{"tnilc", "tnils", "tnilm"}[r.Intn(3)])
 				default:
 					ops = append(ops, "empty")
 				}
 			} else if r.Chance(1, 6) {
-				ops = append(ops, fmt.Sprintf("wrap %d", r.Intn(nv)))
+				// Wrap of a plain error that itself wraps an *Error returns it as-is (errors.As finds the inner one): left out
+				t := r.Intn(nv)
+				for strings.HasPrefix(ops[t], "outer") {
+					t = (t + 1) % nv
+					if t == 0 && strings.HasPrefix(ops[0], "outer") {
+						break
+					}
+				}
+				if strings.HasPrefix(ops[t], "outer") {
+					ops = append(ops, "nil")
+				} else {
+					ops = append(ops, fmt.Sprintf("wrap %d", t))
+				}
 			} else {
 				na := r.Intn(5)
 				if len(okArg) == 0 {
@@ -75,7 +116,7 @@ func gen(r *hx.Rand, n int) []string {
 			if len(size) < nv+1 {
 				last := ops[len(ops)-1]
 				switch {
-				case strings.HasPrefix(last, "new"), strings.HasPrefix(last, "plain"):
+				case strings.HasPrefix(last, "new"), strings.HasPrefix(last, "plain"), strings.HasPrefix(last, "outer"):
 					size = append(size, 1)
 				case strings.HasPrefix(last, "wrap"):
 					size = append(size, size[hx.Atoi(strings.Fields(last)[1])]+1)
@@ -83,7 +124,7 @@ func gen(r *hx.Rand, n int) []string {
 					size = append(size, 0)
 				}
 			}
-			if !strings.HasPrefix(ops[len(ops)-1], "tnilc") && !strings.HasPrefix(ops[len(ops)-1], "wrap") {
+			if !strings.HasPrefix(ops[len(ops)-1], "tnil") && !strings.HasPrefix(ops[len(ops)-1], "wrap") {
 				okArg = append(okArg, nv)
 			}
 			nv++
@@ -122,9 +163,16 @@ func describe(v error) string {
 			return "tnilc"
 		}
 		return "plain:" + e.s
-	default:
-		return "plain:" + v.Error()
+	case sliceErr:
+		if e == nil {
+			return "tnilc"
+		}
+	case mapErr:
+		if e == nil {
+			return "tnilc"
+		}
 	}
+	return "plain:" + v.Error()
 }
 
 func run(c string) (obs string) {
@@ -157,6 +205,16 @@ func run(c string) (obs string) {
 		case "tnilc":
 			var e *customErr
 			vals = append(vals, e)
+		case "tnils":
+			var e sliceErr
+			vals = append(vals, e)
+		case "tnilm":
+			var e mapErr
+			vals = append(vals, e)
+		case "outer":
+			p := &outerErr{msg: "p" + f[1], inner: vals[hx.Atoi(f[2])]}
+			plains[len(vals)] = p
+			vals = append(vals, p)
 		case "empty":
 			vals = append(vals, &errs.Error{})
 		case "app":
@@ -171,9 +229,15 @@ func run(c string) (obs string) {
 			// every plain error that went in must still be reachable through errors.Is
 			if res != nil {
 				reach := true
+				// a plain accumulator is wrapped: the first contained error must still reach it
+				if p, ok := plains[hx.Atoi(f[1])]; ok {
+					ws := res.WrappedErrors()
+					reach = len(ws) > 0 && errors.Is(ws[0], p)
+				}
 				for _, a := range args {
 					if _, isE := a.(*errs.Error); !isE && a != nil {
-						if _, isC := a.(*customErr); isC {
+						switch a.(type) {
+						case *customErr, sliceErr, mapErr:
 							continue
 						}
 						found := false
